@@ -528,6 +528,26 @@ def D57():
     r = c.setup_optim_problem({'p': np.ones(tg.T)}, tg).optimize()
     return 'daily contract, min take 72 over three days, horizon starting at noon (60 of 72 h covered): volume taken %.0f' % -r.value
 
+@witness
+def D58():
+    tg = A.Timegrid(dt.date(2021, 1, 1), dt.date(2021, 1, 5), freq='h')
+    s = A.Storage('st', nodes=N1, start=dt.date(2021, 1, 3), end=dt.date(2021, 1, 5), size=10, cap_in=1, cap_out=1)
+    pf = eao.portfolio.Portfolio([sc('buy'), s])
+    r = pf.setup_split_optim_problem({'p': np.sin(np.linspace(0, 30, tg.T)) + 2}, tg, 'd').optimize()
+    return 'split optimisation, storage starting in the third interval: value %.4f' % r.value
+
+@witness
+def D59():
+    import pandas as pd
+    tg = A.Timegrid(dt.date(2021, 1, 1), dt.date(2021, 1, 5), freq='d')
+    ob = dict(start=[pd.Timestamp(2021, 1, 1), pd.Timestamp(2021, 1, 2)], end=[pd.Timestamp(2021, 1, 3), pd.Timestamp(2021, 1, 4)], capa=[1., -2.], price=[5., 12.])
+    sa = eao.portfolio.StructuredAsset(eao.portfolio.Portfolio([A.OrderBook('ob', N1, orders=ob)]), name='sa', nodes=N1)
+    flat = eao.portfolio.Portfolio([sc('sc', min_cap=-100, max_cap=100), A.OrderBook('ob', N1, orders=ob)])
+    pr = {'p': 10 * np.ones(tg.T)}
+    return 'order book: flat %.2f, inside a structured asset %.2f' % (
+        flat.setup_optim_problem(pr, tg).optimize().value,
+        eao.portfolio.Portfolio([sc('sc', min_cap=-100, max_cap=100), sa]).setup_optim_problem(pr, tg).optimize().value)
+
 if __name__ == '__main__':
     which = sys.argv[1:] or list(W)
     for k in which:
